@@ -32,6 +32,8 @@ type Property struct {
 	// NoRecheck: re-execution fingerprints are not compared (C17: output that depends on Go map iteration order
 	// is itself the violation class being looked for).
 	NoRecheck bool
+	// Cold marks cases that must be the only case of a fresh process (the driver runs them one process each).
+	Cold func(c Case) bool
 	// RequiredProbes lists, per tier, probes / fault kinds / counters that must be non-zero (reach).
 	RequiredProbes map[string][]string
 	Assumptions    []string
@@ -180,7 +182,8 @@ func init() {
 			}
 			return GenCompose("C12", c.Seed, pool)
 		},
-		Components:  worldComponents,
+		RequiredProbes: map[string][]string{"quick": {"canonical_reference_among_equivalent"}, "thorough": {"canonical_reference_among_equivalent"}},
+		Components:     worldComponents,
 		Assumptions: worldAssumptions,
 	})
 	register(&Property{
@@ -188,7 +191,8 @@ func init() {
 		Rule: "observers answer resolution requests at arbitrary points of seeded histories (documents built from validated keys of all types x purpose subsets, services, " +
 			"also-known-as, other members) with every transformer option combination (@base, published / unpublished operation lists, method contexts, published vs unpublished " +
 			"info); operation lists are handed over shuffled, with duplicates sharing a canonical reference and (time, number) pairs that disagree; document and metadata are " +
-			"compared member by member with the reference resolution. distinct_nontrivial = distinct (options, #keys, #services, #operations) tuples",
+			"compared member by member with the reference resolution; one transformer per option set serves the whole run (1-7 method contexts, palette of option sets per run) and every " +
+			"result returned is retained and read again at the end of the run (a result is a value, not a view of the transformer). distinct_nontrivial = distinct (options, #keys, #services, #operations) tuples",
 		Cases: func(master uint64, tier string) []Case {
 			n := 1200
 			if tier == "thorough" {
@@ -196,7 +200,8 @@ func init() {
 			}
 			return seqCases(master, n, nil)
 		},
-		Gen: func(c Case, pool *Pool) *Plan { return GenResolve(c.Seed, pool) },
+		Gen:            func(c Case, pool *Pool) *Plan { return GenResolve(c.Seed, pool) },
+		RequiredProbes: map[string][]string{"quick": {"transformer_reused", "retained_results_rechecked"}, "thorough": {"transformer_reused", "retained_results_rechecked"}},
 		Components: func() map[string]string {
 			m := map[string]string{"didtransformer.Transformer, metadata.CreateDocumentMetadata, docutil.GetTransformationInfoFor*": "real"}
 			for k, v := range worldComponents {
